@@ -58,6 +58,7 @@ impl FunctionName {
 }
 
 //@extract crates/samlang-ast/src/wasm.rs :: enum Type
+//@attr #[derive(Clone, Copy)]
 //@replace mir::TypeNameId => TypeNameId ## R1: module path of the opaque type
 //@end
 //@extract crates/samlang-ast/src/wasm.rs :: enum InlineInstruction
@@ -193,22 +194,169 @@ impl FunctionName {
     ensures r == (e is Int32Literal || (e is Variable && e->Variable_1 is Int32)),  // :i32_operands_are_literals_and_int_typed_variables
 //@end
 
-/// the boxing decision for one argument of a call (the `if` inside the argument closure of the Call arm), R14 block
+/// how one argument of a call is passed (the whole body of the argument closure of the Call arm), R14 block
+impl LoweringManager {
+  /// R3: `self.local_variables.get(var_name).copied() == Some(wasm::Type::Eq)` — the local is held as `(ref eq)`
+  uninterp spec fn held_as_eq(&self, n: PStr) -> bool;
+  #[verifier::external_body]
+  fn local_is_eq(&self, n: &PStr) -> (r: bool) ensures r == self.held_as_eq(*n) { unimplemented!() }
+}
+/// R3: `<[T]>::get`
+#[verifier::external_body]
+fn vec_get<'a>(v: &'a Vec<LirType>, i: usize) -> (r: Option<&'a LirType>)
+  ensures (r is Some) == (i < v@.len()), r is Some ==> *r->Some_0 == v@[i as int]
+{ unimplemented!() }
+
+spec fn is_i32_operand(arg: LirExpression) -> bool { arg is Int32Literal || (arg is Variable && arg->Variable_1 is Int32) }
+spec fn needs_downcast(m: LoweringManager, callee_param_types: Option<&Vec<LirType>>, i: usize, arg: LirExpression) -> bool {
+  callee_param_types is Some && arg is Variable && m.held_as_eq(arg->Variable_0)
+    && i < callee_param_types->Some_0@.len() && callee_param_types->Some_0@[i as int] is Id
+}
+
 //@extractblock crates/samlang-compiler/src/wasm_lowering.rs :: impl<'a> LoweringManager<'a> / fn lower_stmt
-//@from if Some(i) == vec_element_arg && lir_expr_is_i32(arg) {
-//@to return wasm::InlineInstruction::I31New(Box::new(lowered)); }
-//@replace wasm::InlineInstruction::I31New => InlineInstruction::I31New ## R1: module path of the extracted type
-//@replace Some(i) == vec_element_arg => vec_element_arg == Some(i) && true ## R9: derived PartialEq on Option<usize>, operands exchanged (Verus has no spec for Option == Option with the literal on the left)
-//@wrap fn box_vec_element(i: usize, vec_element_arg: Option<usize>, arg: &LirExpression, lowered: InlineInstruction) -> (r: InlineInstruction)
+//@from let lowered = self.lower_expr(arg);
+//@to value: Box::new(lowered), }; } } lowered
+//@replace let lowered = self.lower_expr(arg); => let lowered = this.lower_expr(arg); ## R14: the receiver of the enclosing method is a parameter of the synthetic function
+//@replace* wasm::InlineInstruction:: => InlineInstruction:: ## R1: module path of the extracted type
+//@replace if Some(i) == vec_element_arg && lir_expr_is_i32(arg) { => if vec_element_arg == Some(i) && true && lir_expr_is_i32(arg) { ## R9: derived PartialEq on Option<usize>, operands exchanged (Verus has no spec for Option == Option with the literal on the left)
+//@replace if self.local_variables.get(var_name).copied() == Some(wasm::Type::Eq) && let Some(lir::Type::Id(_)) = param_types.get(i) { ==>> if this.local_is_eq(var_name) { if let Some(lir::Type::Id(_)) = vec_get(param_types, i) { ## R5: let-chain without else written as nested ifs; R3: the lookup in the table of locals and <[T]>::get are stubs
+//@after value: Box::new(lowered), };
+              }
+//@wrap fn lower_call_argument(this: &mut LoweringManager, i: usize, arg: &LirExpression, needs_ref_eq_this: bool, vec_element_arg: Option<usize>, callee_param_types: Option<&Vec<LirType>>) -> (r: InlineInstruction)
 //@contract
     ensures
-      // an i32 element handed to the vector runtime is passed as `ref.i31`
-      r == (if vec_element_arg == Some(i) && (arg is Int32Literal || (arg is Variable && arg->Variable_1 is Int32))
-            { InlineInstruction::I31New(Box::new(lowered)) } else { lowered }),  // :int_elements_are_boxed_as_i31
-//@atend
-  lowered
+      r == (
+        // the placeholder 0 passed as the receiver of a builtin travels as an i31 reference
+        if i == 0 && needs_ref_eq_this && *arg == LirExpression::Int32Literal(0) { InlineInstruction::I31New(Box::new(lowered(*arg))) }
+        // an i32 element handed to the vector runtime — a literal OR a variable — is passed as `ref.i31`
+        else if vec_element_arg == Some(i) && is_i32_operand(*arg) { InlineInstruction::I31New(Box::new(lowered(*arg))) }
+        // a type-erased local passed where a concrete struct type is expected is downcast
+        else if needs_downcast(*final(this), callee_param_types, i, *arg) { InlineInstruction::Cast { pointer_type: callee_param_types->Some_0@[i as int], value: Box::new(lowered(*arg)) } }
+        else { lowered(*arg) }),  // :each_argument_is_passed_in_the_representation_the_callee_expects
 //@end
 
+
+// =====================================================================================
+// if-else: the final assignments are part of the branches
+// =====================================================================================
+#[verifier::external_body]
+struct LirStatement { _p: u64 }
+/// what a statement list becomes (the recursive lowering), opaque
+uninterp spec fn lowered_stmts(s: Seq<LirStatement>) -> Seq<Instruction>;
+uninterp spec fn lowered_type(t: LirType) -> Type;
+#[verifier::external_body]
+struct TypeLoweringContext { _p: u8 }
+impl TypeLoweringContext {
+  #[verifier::external_body]
+  fn lower(&mut self, t: &LirType) -> (r: Type) ensures r == lowered_type(*t) { unimplemented!() }
+}
+struct StmtLoweringManager { type_cx: TypeLoweringContext, inner: LoweringManager }
+impl StmtLoweringManager {
+  #[verifier::external_body]
+  fn lower_expr(&mut self, e: &LirExpression) -> (r: InlineInstruction) ensures r == lowered(*e) { unimplemented!() }
+  #[verifier::external_body]
+  fn set(&mut self, n: PStr, t: Type, v: InlineInstruction) -> (r: InlineInstruction)
+    ensures r == InlineInstruction::LocalSet(n, Box::new(v))
+  { unimplemented!() }
+  /// R3: `stmts.iter().flat_map(|it| self.lower_stmt(it)).collect_vec()` — the recursive lowering of a statement list
+  #[verifier::external_body]
+  fn lower_stmts(&mut self, stmts: &Vec<LirStatement>) -> (r: Vec<Instruction>) ensures r@ == lowered_stmts(stmts@) { unimplemented!() }
+}
+/// the assignments that end a branch: `n_k = e_k` for every final assignment, in order
+spec fn final_sets(fa: Seq<(PStr, LirType, LirExpression, LirExpression)>, then_branch: bool) -> Seq<Instruction>
+  decreases fa.len()
+{
+  if fa.len() == 0 { seq![] } else {
+    final_sets(fa.drop_last(), then_branch).push(Instruction::Inline(InlineInstruction::LocalSet(fa.last().0,
+      Box::new(lowered(if then_branch { fa.last().2 } else { fa.last().3 })))))
+  }
+}
+spec fn negated(c: InlineInstruction) -> InlineInstruction {
+  InlineInstruction::Binary { v1: Box::new(c), op: BinaryOperator::XOR, v2: Box::new(InlineInstruction::Const(1)), is_ref_comparison: false }
+}
+
+//@extractblock crates/samlang-compiler/src/wasm_lowering.rs :: impl<'a> LoweringManager<'a> / fn lower_stmt
+//@from lir::Statement::IfElse { condition, s1, s2, final_assignments } => {
+//@to vec![wasm::Instruction::IfElse { condition, s1, s2 }] } }
+//@replace lir::Statement::IfElse { condition, s1, s2, final_assignments } => { ==>> { ## R14: the arm header is part of the anchor (nothing may precede the block inside the arm); its bindings are the parameters of the synthetic function
+//@replace let mut s1 = s1.iter().flat_map(|it| self.lower_stmt(it)).collect_vec(); => let mut s1 = this.lower_stmts(old_s1); ## R3: the recursive lowering of a statement list (the arm's binding s1 is shadowed by the lowered list; the parameter carries the source list as old_s1)
+//@replace let mut s2 = s2.iter().flat_map(|it| self.lower_stmt(it)).collect_vec(); => let mut s2 = this.lower_stmts(old_s2); ## R3: the recursive lowering of a statement list (likewise old_s2)
+//@replace for (n, t, e1, e2) in final_assignments { ==>> for fa in it: final_assignments.iter() invariant it.seq().len() == final_assignments@.len(), forall|j: int| 0 <= j < final_assignments@.len() ==> *(#[trigger] it.seq()[j]) == final_assignments@[j], s1@ == lowered_stmts(old_s1@) + final_sets(final_assignments@.take(it.index() as int), true), s2@ == lowered_stmts(old_s2@) + final_sets(final_assignments@.take(it.index() as int), false), { proof { assert(final_assignments@.take(it.index() + 1).drop_last() =~= final_assignments@.take(it.index() as int)); } let (n, t, e1, e2) = fa; ## R11: the destructuring pattern of the loop is a let at the top of the body; R9: IntoIterator for &Vec is Vec::iter; R8: ghost iterator name, loop invariant, proof hint
+//@replace* wasm:: =>  ## R1: module path of the extracted types
+//@replace hir::BinaryOperator::XOR => BinaryOperator::XOR ## R1: module path of the extracted enum
+//@replace* self. => this. ## R14: the receiver of the enclosing method is a parameter of the synthetic function
+//@before if s1.is_empty() {
+        proof {
+          assert(final_assignments@.take(final_assignments@.len() as int) =~= final_assignments@);
+          assert(s1@.len() == 0 ==> lowered_stmts(old_s1@).len() == 0);
+        }
+//@wrap fn lower_if_else_arm(this: &mut StmtLoweringManager, condition: &LirExpression, old_s1: &Vec<LirStatement>, old_s2: &Vec<LirStatement>, final_assignments: &Vec<(PStr, LirType, LirExpression, LirExpression)>) -> (r: Vec<Instruction>)
+//@contract
+    ensures
+      ({
+        let then_branch = lowered_stmts(old_s1@) + final_sets(final_assignments@, true);
+        let else_branch = lowered_stmts(old_s2@) + final_sets(final_assignments@, false);
+        // nothing is emitted only when neither branch does anything — final assignments included
+        &&& r@.len() == 0 ==> then_branch.len() == 0 && else_branch.len() == 0
+        &&& r@.len() <= 1
+        // otherwise one if-else: each branch ends with its final assignments, under the condition (or the branches exchanged under its negation)
+        &&& r@.len() == 1 ==> r@[0] is IfElse && (
+              (r@[0]->condition == lowered(*condition) && r@[0]->s1@ == then_branch && r@[0]->s2@ == else_branch)
+              || (r@[0]->condition == negated(lowered(*condition)) && r@[0]->s1@ == else_branch && r@[0]->s2@.len() == 0 && then_branch.len() == 0))
+      }),  // :each_branch_ends_with_its_final_assignments
+//@end
+
+// =====================================================================================
+// the call itself: always emitted, exactly once
+// =====================================================================================
+uninterp spec fn indirect_call_type(callee: LirExpression) -> TypeNameId;
+impl StmtLoweringManager {
+  /// R3: `self.type_cx.lower_function_type(callee.as_variable().unwrap().1.as_fn().unwrap())` — the signature name of a function value
+  #[verifier::external_body]
+  fn indirect_call_type_of(&mut self, callee: &LirExpression) -> (r: TypeNameId) ensures r == indirect_call_type(*callee) { unimplemented!() }
+  /// R3: `self.local_variables.insert(*c, ret_type)` — records the type of a local
+  #[verifier::external_body]
+  fn declare_local(&mut self, c: PStr, t: Type) { unimplemented!() }
+}
+spec fn the_call(callee: LirExpression, args: Seq<InlineInstruction>, i: InlineInstruction) -> bool {
+  if callee is FnName {
+    i is DirectCall && i->DirectCall_0 == callee->FnName_0 && i->DirectCall_1@ == args
+  } else {
+    i is IndirectCall && *i->function_index == lowered(callee) && i->function_type_name == indirect_call_type(callee) && i->arguments@ == args
+  }
+}
+/// the call, with what the Vec runtime hands back converted to the element type the program expects
+spec fn the_converted_call(callee: LirExpression, args: Seq<InlineInstruction>, vec_returns_element: bool, return_type: LirType, i: InlineInstruction) -> bool {
+  if !vec_returns_element { the_call(callee, args, i) }
+  else if return_type is Int32 { i is DirectCall && i->DirectCall_0 == unwrap_i31_fn() && i->DirectCall_1@.len() == 1 && the_call(callee, args, i->DirectCall_1@[0]) }
+  else if return_type is Id { i matches InlineInstruction::Cast { pointer_type, value } && pointer_type == return_type && the_call(callee, args, *value) }
+  else { the_call(callee, args, i) }
+}
+
+//@extractblock crates/samlang-compiler/src/wasm_lowering.rs :: impl<'a> LoweringManager<'a> / fn lower_stmt
+//@from .collect_vec(); let call = if let lir::Expression::FnName(name, _) = callee {
+//@to vec![wasm::Instruction::Inline(stmt)] } }
+//@replace .collect_vec(); let call = if let ==>> let call = if let ## R14: the end of the preceding statement is part of the anchor (nothing may be put between the lowering of the arguments and the call) and is dropped
+//@replace* self. => this. ## R14: the receiver of the enclosing method is a parameter of the synthetic function
+//@replace* wasm:: =>  ## R1: module path of the extracted types
+//@replace* lir::Expression::FnName => LirExpression::FnName ## R1: module path of the extracted type
+//@replace function_type_name: self .type_cx .lower_function_type(callee.as_variable().unwrap().1.as_fn().unwrap()), => function_type_name: this.indirect_call_type_of(callee), ## R3: the signature name of a function value
+//@replace* self.local_variables.insert(*c, ret_type); => this.declare_local(*c, ret_type); ## R3: records the type of a local
+//@replace mir::FunctionName::UNWRAP_I31 => FunctionName::unwrap_i31() ## R3: the named constant of the opaque name
+//@wrap fn emit_call(this: &mut StmtLoweringManager, callee: &LirExpression, argument_instructions: Vec<InlineInstruction>, is_panic: bool, vec_returns_element: bool, return_type: &LirType, return_collector: &Option<PStr>) -> (r: Vec<Instruction>)
+//@contract
+    ensures
+      // a panic: the call, its result dropped, then `unreachable`
+      is_panic ==> r@.len() == 2 && r@[0] is Inline && r@[0]->Inline_0 is Drop && the_call(*callee, argument_instructions@, *r@[0]->Inline_0->Drop_0)
+        && r@[1] == Instruction::Inline(InlineInstruction::Unreachable),  // :a_panic_call_is_emitted_and_followed_by_unreachable
+      // every other call is emitted exactly once — collected into its local or dropped, never left out
+      !is_panic ==> r@.len() == 1 && r@[0] is Inline && (match *return_collector {
+        Some(c) => r@[0]->Inline_0 is LocalSet && r@[0]->Inline_0->LocalSet_0 == c
+          && the_converted_call(*callee, argument_instructions@, vec_returns_element, *return_type, *r@[0]->Inline_0->LocalSet_1),
+        None => r@[0]->Inline_0 is Drop
+          && the_converted_call(*callee, argument_instructions@, vec_returns_element, *return_type, *r@[0]->Inline_0->Drop_0),
+      }),  // :every_call_is_emitted_exactly_once_with_its_result_collected_or_dropped
+//@end
 
 /// what the Call arm does with the value a vector runtime function hands back (R14 block): the runtime returns a
 /// `(ref null eq)` slot; an int element is unwrapped from its i31, a concrete struct type is cast to, and an
